@@ -250,6 +250,11 @@ func c03Scenarios(tier string) []engine.Scenario {
 				a = append(a, simple("guard(B1)", func(s *world.Stack) world.Req { return flows.Guard(b) }))
 				a = append(a, flows.AFault("guard(B1)", "db.Load", func(s *world.Stack, _ *world.World) world.Req { return flows.Guard(b) }))
 				// the pages the middlewares redirect to, when they are behind the middlewares themselves
+				a = append(a, simple("guard(B1,OPTIONS-preflight)", func(s *world.Stack) world.Req {
+					r := flows.Guard(b)
+					r.Method, r.Header = "OPTIONS", map[string]string{"Access-Control-Request-Method": "POST", "Origin": "https://app.example"}
+					return r
+				}))
 				a = append(a, simple("guard(B1,at=ConfirmNotOK)", func(s *world.Stack) world.Req { return flows.GuardAt(b, s.AB.Config.Paths.ConfirmNotOK) }))
 				a = append(a, simple("guard(B1,at=LockNotOK)", func(s *world.Stack) world.Req { return flows.GuardAt(b, s.AB.Config.Paths.LockNotOK) }))
 			}
